@@ -197,7 +197,21 @@ def run_greenback(case) -> dict:
             if k == 0 and where == "inside":
                 res["st"] = stackscope.extract(trio.lowlevel.current_task(), with_contexts=False)
                 return
-            greenback.await_(mk_async(k)())
+            co = mk_async(k)()
+            aw = case.get("aw", "coro")
+            if aw == "coro" or k != 0:
+                greenback.await_(co)
+            elif aw == "wrapper":
+                # the innermost bridge awaits an object that is not a coroutine: await_ adapts it
+                class W:
+                    def __await__(s):
+                        return co.__await__()
+                greenback.await_(W())
+            else:
+                class G:
+                    def __await__(s):
+                        return (yield from co.__await__())
+                greenback.await_(G())
         sync_fn.__name__ = f"sync{k}"
         sync_fn.__qualname__ = f"sync{k}"
         sync_fn.__code__ = sync_fn.__code__.replace(co_name=f"sync{k}")
@@ -242,7 +256,8 @@ def run_greenback(case) -> dict:
     for f in st.frames:
         if f.funcname == "task_body":
             seen_body = True
-        elif seen_body and not f.hide and (f.modname or "").startswith(("greenback", "greenlet")):
+        elif seen_body and not f.hide and (f.modname or "").startswith(("greenback", "greenlet")) and f.funcname != "adapt_awaitable":
+            # (adapt_awaitable, the coroutine await_ wraps a non-coroutine awaitable in, is shown: upstream's own test expects it)
             hidden_ok = False
     if where == "inside":
         want = []
@@ -287,6 +302,9 @@ class C15(PropCheck):
         for m in range(0, 4):
             for where in ("outside", "inside"):
                 out.append({"k": "greenback", "alternations": m, "where": where})
+                if m >= 1:
+                    for aw in ("wrapper", "gen"):
+                        out.append({"k": "greenback", "alternations": m, "where": where, "aw": aw})
         return out
 
     def run_real(self, case):
